@@ -139,6 +139,9 @@ func runC18(c *explore.Ctx) {
 					if fmt.Sprint(got) != fmt.Sprint(w) {
 						c.Violate(scope, myIdx, "C18/"+form+"/wrong", fmt.Sprintf("got %v want %v", got, w), cas)
 					}
+					// the result belongs to the caller: scribbling over it must not reach anything the
+					// segment answers later lists from (the same segment object serves every list)
+					explore.Guard(func() { bm.Clear(); bm.Add(1 << 20); bm.Add(0) })
 					return !c.Expired()
 				})
 			}
